@@ -1,4 +1,4 @@
-package main
+package hlib
 
 import (
 	"context"
@@ -12,7 +12,7 @@ import (
 	"github.com/arr-ai/arrai/syntax"
 )
 
-func isFn(v rel.Value) bool {
+func IsFn(v rel.Value) bool {
 	switch v.(type) {
 	case rel.Closure, rel.ExprClosure, *rel.NativeFunction:
 		return true
@@ -27,12 +27,12 @@ func canonNum(f float64) string {
 	return strconv.FormatFloat(f, 'g', -1, 64)
 }
 
-// canon computes the denotation of v as text using only Enumerator walks and Go's string sort.
-func canon(v rel.Value) string {
+// Canon computes the denotation of v as text using only Enumerator walks and Go's string sort.
+func Canon(v rel.Value) string {
 	if v == nil {
 		return "<nil>"
 	}
-	if isFn(v) {
+	if IsFn(v) {
 		return "fn"
 	}
 	switch v := v.(type) {
@@ -42,14 +42,14 @@ func canon(v rel.Value) string {
 		parts := []string{}
 		for e := v.Enumerator(); e.MoveNext(); {
 			name, val := e.Current()
-			parts = append(parts, name+":"+canon(val))
+			parts = append(parts, name+":"+Canon(val))
 		}
 		sort.Strings(parts)
 		return "(" + strings.Join(parts, ",") + ")"
 	case rel.Set:
 		parts := []string{}
 		for e := v.Enumerator(); e.MoveNext(); {
-			parts = append(parts, canon(e.Current()))
+			parts = append(parts, Canon(e.Current()))
 		}
 		sort.Strings(parts)
 		out := parts[:0]
@@ -63,21 +63,21 @@ func canon(v rel.Value) string {
 	return "<?" + rel.ValueTypeAsString(v) + ">"
 }
 
-func newCtx() context.Context {
+func NewCtx() context.Context {
 	return arraictx.InitRunCtx(context.Background())
 }
 
-func evalSrc(src string) (rel.Value, error) {
-	return syntax.EvaluateExpr(newCtx(), "", src)
+func EvalSrc(src string) (rel.Value, error) {
+	return syntax.EvaluateExpr(NewCtx(), "", src)
 }
 
 func init() {
 	// eval: payload[0] = arr.ai source; observable = canon(value) | "error"
-	register("eval", func(p []string) string {
-		v, err := evalSrc(p[0])
+	Register("eval", func(p []string) string {
+		v, err := EvalSrc(p[0])
 		if err != nil {
 			return "error"
 		}
-		return canon(v)
+		return Canon(v)
 	})
 }
